@@ -1020,6 +1020,33 @@ func (c *Ctx) checkLatestQuery() {
 				}
 			}
 		})
+		// an element other than the first of a list collected in reverse nonce order is never the latest
+		badIdx := ""
+		ana.Instrs(f, func(in ssa.Instruction) {
+			x, ok := in.(*ssa.IndexAddr)
+			if !ok || isConstVal(x.Index, "0") {
+				return
+			}
+			call, _ := ana.UnwrapCall(x.X)
+			if call == nil {
+				return
+			}
+			if n := ana.NamedOf(x.Type()); n == nil || n.Obj().Name() != "SignerSetTx" {
+				return
+			}
+			for _, callee := range p.Callees(call) {
+				for g := range p.ReachCS(callee) {
+					for _, op := range p.StoreOps(g) {
+						if op.Op == "ReverseIterator" && c.prefixName(op) == "OutgoingTxKey" {
+							badIdx = p.Expr(x.Index, 0)
+						}
+					}
+				}
+			}
+		})
+		if badIdx != "" {
+			return false, "an element other than the first of a list collected in reverse nonce order (index " + badIdx + "): the oldest retained set is served as the latest"
+		}
 		if byCounter {
 			return true, "the set stored under the latest-nonce counter"
 		}
